@@ -126,6 +126,51 @@ package cache
 //@   ensures #lrufirst forall r *list.Element, e *list.Element :: { old(lru.list.lmem[r]), lru.list.lmem[e] } old(lru.list.lmem[r]) && !lru.list.lmem[r] && lru.list.lmem[e] && r != element && e != element ==> old(e.lrk) < old(r.lrk)
 //@   modifies lru.size, lru.evictions, entries(lru.table), lru.list.lmem, lru.list.lcnt, list.Element.lrk, entry.value, entry.size
 //
+// ---- the variants that report the evicted values: same contracts plus the number of reported values ----
+//@ func LRUCache.checkCapacityAndGetRemoved
+//@   requires wheld(lru.mu) && ri(lru) && lru.evictions + lru.list.lcnt < 9223372036854775807
+//@   ensures #ri ri(lru) && lru.size <= lru.capacity
+//@   ensures #noop old(lru.size) <= lru.capacity ==> lru.list.lmem == old(lru.list.lmem) && lru.evictions == old(lru.evictions)
+//@   ensures #subset forall e *list.Element :: { lru.list.lmem[e] } lru.list.lmem[e] ==> old(lru.list.lmem[e])
+//@   ensures #lrufirst forall r *list.Element, e *list.Element :: { old(lru.list.lmem[r]), lru.list.lmem[e] } old(lru.list.lmem[r]) && !lru.list.lmem[r] && lru.list.lmem[e] ==> e.lrk < r.lrk
+//@   ensures #evictions lru.evictions == old(lru.evictions) + old(lru.list.lcnt) - lru.list.lcnt
+//@   ensures #tablesub forall k interface{} :: { has(lru.table, k) } has(lru.table, k) ==> old(has(lru.table, k)) && lru.table[k] == old(lru.table[k])
+//@   ensures #same lru.capacity == old(lru.capacity) && lru.list == old(lru.list) && lru.table == old(lru.table)
+//@   ensures #reported len(removedValueList) == lru.evictions - old(lru.evictions)
+//@   modifies lru.size, lru.evictions, entries(lru.table), lru.list.lmem, lru.list.lcnt, region($alloc)
+//@   loop 1
+//@     invariant #ri ri(lru) && wheld(lru.mu) && lru.capacity == old(lru.capacity) && lru.list == old(lru.list) && lru.table == old(lru.table)
+//@     invariant #noop old(lru.size) <= lru.capacity ==> lru.list.lmem == old(lru.list.lmem) && lru.evictions == old(lru.evictions) && lru.size == old(lru.size)
+//@     invariant #subset forall e *list.Element :: { lru.list.lmem[e] } lru.list.lmem[e] ==> old(lru.list.lmem[e])
+//@     invariant #lrufirst forall r *list.Element, e *list.Element :: { old(lru.list.lmem[r]), lru.list.lmem[e] } old(lru.list.lmem[r]) && !lru.list.lmem[r] && lru.list.lmem[e] ==> e.lrk < r.lrk
+//@     invariant #evictions lru.evictions == old(lru.evictions) + old(lru.list.lcnt) - lru.list.lcnt && lru.list.lcnt >= 0
+//@     invariant #reported len(removedValueList) == lru.evictions - old(lru.evictions) && nalloc() >= old(nalloc())
+//@     invariant #tablesub forall k interface{} :: { has(lru.table, k) } has(lru.table, k) ==> old(has(lru.table, k)) && lru.table[k] == old(lru.table[k])
+//
+//@ func LRUCache.addNewAndGetRemoved
+//@   requires wheld(lru.mu) && ri(lru) && headroom(lru) && !has(lru.table, key)
+//@   ensures #ri ri(lru) && lru.size <= lru.capacity && lru.capacity == old(lru.capacity) && lru.list == old(lru.list) && lru.table == old(lru.table)
+//@   ensures #new forall e *list.Element :: { lru.list.lmem[e] } lru.list.lmem[e] && !old(lru.list.lmem[e]) ==> ent(e).key == key && ent(e).value == value && (forall x *list.Element :: { lru.list.lmem[x] } lru.list.lmem[x] && x != e ==> e.lrk < x.lrk)
+//@   ensures #oldorder forall e *list.Element :: { e.lrk } old(lru.list.lmem[e]) ==> e.lrk == old(e.lrk) && ent(e).value == old(ent(e).value) && ent(e).size == old(ent(e).size)
+//@   ensures #lru keptold(lru)
+//@   ensures #others forall k interface{} :: { has(lru.table, k) } has(lru.table, k) && k != key ==> old(has(lru.table, k)) && lru.table[k] == old(lru.table[k])
+//@   ensures #keptifnoeviction lru.evictions == old(lru.evictions) ==> has(lru.table, key) && lru.list.lcnt == old(lru.list.lcnt) + 1
+//@   ensures #mrulast !has(lru.table, key) ==> lru.list.lcnt == 0
+//@   ensures #reported len(result) == lru.evictions - old(lru.evictions)
+//@   modifies region($alloc), lru.size, lru.evictions, mapsof(lru.table), list.List.lmem, list.List.lcnt, list.Element.lrk, list.Element.Value, entry.key, entry.value, entry.size
+//
+//@ func LRUCache.updateInPlaceAndGetRemoved
+//@   requires wheld(lru.mu) && ri(lru) && headroom(lru) && element != nil && lru.list.lmem[element]
+//@   ensures #ri ri(lru) && lru.size <= lru.capacity && lru.capacity == old(lru.capacity) && lru.list == old(lru.list) && lru.table == old(lru.table)
+//@   ensures #nonew forall e *list.Element :: { lru.list.lmem[e] } lru.list.lmem[e] ==> old(lru.list.lmem[e])
+//@   ensures #updated lru.list.lmem[element] ==> ent(element).value == value && ent(element).key == old(ent(element).key) && (forall x *list.Element :: { lru.list.lmem[x] } lru.list.lmem[x] && x != element ==> element.lrk < x.lrk)
+//@   ensures #oldorder forall e *list.Element :: { e.lrk } old(lru.list.lmem[e]) && e != element ==> e.lrk == old(e.lrk) && ent(e).value == old(ent(e).value) && ent(e).size == old(ent(e).size)
+//@   ensures #others forall k interface{} :: { has(lru.table, k) } has(lru.table, k) ==> old(has(lru.table, k)) && lru.table[k] == old(lru.table[k])
+//@   ensures #mrulast !lru.list.lmem[element] ==> lru.list.lcnt == 0
+//@   ensures #lrufirst forall r *list.Element, e *list.Element :: { old(lru.list.lmem[r]), lru.list.lmem[e] } old(lru.list.lmem[r]) && !lru.list.lmem[r] && lru.list.lmem[e] && r != element && e != element ==> old(e.lrk) < old(r.lrk)
+//@   ensures #reported len(result) == lru.evictions - old(lru.evictions)
+//@   modifies region($alloc), lru.size, lru.evictions, entries(lru.table), lru.list.lmem, lru.list.lcnt, list.Element.lrk, entry.value, entry.size
+//
 // ---- public operations ----
 //@ func LRUCache.Set
 //@   requires !held(lru.mu)
@@ -136,6 +181,17 @@ package cache
 //@   ensures #mrulast !has(lru.table, key) ==> lru.list.lcnt == 0
 //@   ensures #lrufirst forall r *list.Element, e *list.Element :: { cs(lru.list.lmem[r]), lru.list.lmem[e] } cs(lru.list.lmem[r]) && !lru.list.lmem[r] && lru.list.lmem[e] && cs(lru.list.lmem[e]) && r != cs(lru.table[key]) && e != cs(lru.table[key]) ==> cs(e.lrk) < cs(r.lrk)
 //@   modifies LRUCache.list, LRUCache.table, LRUCache.size, LRUCache.capacity, LRUCache.evictions, mapsof(lru.table), list.List.lmem, list.List.lcnt, list.Element.lrk, list.Element.Value, entry.key, entry.value, entry.size
+//
+//@ func LRUCache.SetAndGetRemoved
+//@   requires !held(lru.mu)
+//@   ensures #stored has(lru.table, key) ==> ent(lru.table[key]).value == value && (forall x *list.Element :: { lru.list.lmem[x] } lru.list.lmem[x] && x != lru.table[key] ==> lru.table[key].lrk < x.lrk)
+//@   ensures #others forall k interface{} :: { has(lru.table, k) } has(lru.table, k) && k != key ==> cs(has(lru.table, k)) && lru.table[k] == cs(lru.table[k]) && ent(lru.table[k]).value == cs(ent(lru.table[k]).value)
+//@   ensures #order forall e *list.Element :: { e.lrk } cs(lru.list.lmem[e]) && lru.list.lmem[e] && e != lru.table[key] ==> e.lrk == cs(e.lrk)
+//@   ensures #capacity lru.capacity == cs(lru.capacity)
+//@   ensures #reported len(removedValueList) == lru.evictions - cs(lru.evictions)
+//@   ensures #mrulast !has(lru.table, key) ==> lru.list.lcnt == 0
+//@   ensures #lrufirst forall r *list.Element, e *list.Element :: { cs(lru.list.lmem[r]), lru.list.lmem[e] } cs(lru.list.lmem[r]) && !lru.list.lmem[r] && lru.list.lmem[e] && cs(lru.list.lmem[e]) && r != cs(lru.table[key]) && e != cs(lru.table[key]) ==> cs(e.lrk) < cs(r.lrk)
+//@   modifies region($alloc), LRUCache.list, LRUCache.table, LRUCache.size, LRUCache.capacity, LRUCache.evictions, mapsof(lru.table), list.List.lmem, list.List.lcnt, list.Element.lrk, list.Element.Value, entry.key, entry.value, entry.size
 //
 //@ func LRUCache.SetIfAbsent
 //@   requires !held(lru.mu)
